@@ -230,12 +230,12 @@ AXIS_EXEMPT = {
 }
 
 
-def module_axis_lint(repo, rep, rule, modules):
+def module_axis_lint(repo, rep, rule, modules, index_conventions=None):
     """Axis / side homogeneity (roles.RoleChecker.check_function) over every function of the given modules: additive
     expressions, comparisons and axis-named bindings mix H, W and C quantities nowhere except in the reviewed table."""
     from ..roles import RoleChecker
 
-    rc = RoleChecker()
+    rc = RoleChecker(index_conventions=index_conventions)
     n = 0
     for mname in modules:
         m = repo.mod(mname)
